@@ -64,7 +64,7 @@ def storage_attrs(repo) -> Set[str]:
     return out
 
 
-def input_purity(ctx, rule: str, consequence: str, min_functions: int = 150, modules: tuple = ()):
+def input_purity(ctx, rule: str, consequence: str, min_functions: int = 150, modules: tuple = (), functions: tuple = ()):
     """No function of the package (or of the given module prefixes) modifies (a view of) an array it was handed, except the
     frozen output-parameter table."""
     repo = ctx.repo
@@ -76,7 +76,9 @@ def input_purity(ctx, rule: str, consequence: str, min_functions: int = 150, mod
     for f in repo.all_functions():
         if any(f.module.name.startswith(m) for m in PURITY_SKIP_MODULES):
             continue
-        if modules and not any(f.module.name.startswith(m) for m in modules):
+        if modules and not any(f.module.name.startswith(m) for m in modules) and not (functions and f.qual in functions):
+            continue
+        if functions and not modules and f.qual not in functions:
             continue
         n += 1
         res = analyse(f.node, through_attrs=through)
